@@ -33,12 +33,19 @@ GCD(a, b) == IF b = 0 THEN a ELSE GCD(b, a % b)
 MaxI == 1073741824
 MulOK(a, b) == a = 0 \/ b = 0 \/ IAbs(a) <= MaxI \div IAbs(b)
 Sat == MaxI + 1
-RECURSIVE IPow(_, _)
-\* b^e, or Sat when it does not fit
-IPow(b, e) ==
+RECURSIVE IPowR(_, _)
+IPowR(b, e) ==
   IF e = 0 THEN 1
-  ELSE LET r == IPow(b, e - 1) IN
+  ELSE LET r == IPowR(b, e - 1) IN
        IF r = Sat \/ ~MulOK(r, b) THEN Sat ELSE r * b
+\* b^e (e >= 0), or Sat when it does not fit; recursion depth is at most 31
+IPow(b, e) ==
+  CASE e <= 0 -> 1
+    [] b = 0 -> 0
+    [] b = 1 -> 1
+    [] b = -1 -> (IF e % 2 = 0 THEN 1 ELSE -1)
+    [] e > 31 -> Sat
+    [] OTHER -> IPowR(b, e)
 
 \* floor division and python-style modulus for any non-zero divisor
 FloorDiv(a, b) == IF b > 0 THEN a \div b ELSE (-a) \div (-b)
@@ -365,7 +372,7 @@ Broadcast(a, sh) ==
   [sh |-> sh, v |-> [k \in 1..Size(sh) |-> BAt(a, Unflat(k - 1, sh))]]
 
 \* remove position p (1-based) of a sequence
-DropAt(s, p) == SubSeq(s, 1, p - 1) \o SubSeq(s, p + 1, Len(s))
+DropAt(s, p) == IF p < 1 \/ p > Len(s) THEN s ELSE SubSeq(s, 1, p - 1) \o SubSeq(s, p + 1, Len(s))
 InsertAt(s, p, x) == SubSeq(s, 1, p - 1) \o <<x>> \o SubSeq(s, p, Len(s))
 
 \* reduce one axis (0-based, already non-negative) with an associative op
